@@ -25,8 +25,15 @@ RULE = ("deterministic boundary corpus (instants at the epoch, 2020, the 2^51 us
         "then seeded random cases; plus a float stream (fromtimestamp, timedelta(seconds=f), int(f), "
         "int/int, x.timestamp()*1e6 on float.hex literals near halves, 2^51..2^53, subnormals) and a "
         "codec stream (real _event_to_us/_rows_to_events); the real _timestamp_parse is run on all 10^6 "
-        "microsecond values; non-trivial = distinct case in which the ms floor changed the instant, the "
-        "offset was non-zero, or the duration went through a float conversion")
+        "microsecond values; HISTORIES (harness/c13_hist.py): ~190 hand-written + 250 (thorough 8000) seeded sessions, "
+        "each a sequence of constructions / attribute assignments / _timestamp_parse calls / JSON and Event(**event) "
+        "rebuilds in one fresh process with every live event re-observed after every step, timestamps as wall-clock "
+        "fields + fold in zones with offset changes (6 synthetic PEP 495 zones, 8 tz database zones, every transition of "
+        "4 years): both fold readings of repeated and of skipped wall times with ONE tzinfo object, interval edges, "
+        "the same instant written 8 ways, constructor defaults, data with 10 001 keys; "
+        "non-trivial = distinct case in which the ms floor changed the instant, the "
+        "offset was non-zero, or the duration went through a float conversion; for a history observation: after a later "
+        "step than the first")
 
 IMPORTS = ("From Coq Require Import String.\n"
            "From AwVerif Require Import Base.Prelude Model.PyFloat Model.PyFloatWire Model.IsoTime "
